@@ -125,19 +125,20 @@ AddBad(hdr, ops, j) ==
          ELSE IF Len(o.ends) = 1 THEN "single-target-branch"
          ELSE ""
     [] OTHER -> ""
-CompileBad(hdr, ops, jc) ==
-  LET o == ops[jc]  Pr == {j \in 1..(jc - 1) : IsAdd(ops[j])}  C == ConnSet(ops, Pr) IN
+\* J = the Add* calls that make up the construction which call jc compiles
+CompileBad(hdr, ops, jc, J) ==
+  LET o == ops[jc]  C == ConnSet(ops, J) IN
   IF ~\E c \in C : c[1] = START THEN "no-entry"
   ELSE IF ~\E c \in C : c[2] = END THEN "no-exit"
-  ELSE IF Untypable(ops, Pr) # {} THEN "untyped-passthrough"
-  ELSE IF o.m = "all" /\ Cyclic(ops, Pr) THEN "cycle-in-all-predecessor-mode"
+  ELSE IF Untypable(ops, J) # {} THEN "untyped-passthrough"
+  ELSE IF o.m = "all" /\ Cyclic(ops, J) THEN "cycle-in-all-predecessor-mode"
   ELSE IF o.m = "all" /\ o.x = "maxsteps" THEN "invalid-option-combination"
   ELSE ""
 \* first reason why the construction compiled by call jc is ill-formed
-IllFormedWhy(hdr, ops, jc) ==
-  LET B == {j \in 1..(jc - 1) : IsAdd(ops[j]) /\ AddBad(hdr, ops, j) # ""} IN
-  IF B # {} THEN AddBad(hdr, ops, CHOOSE j \in B : \A j2 \in B : j <= j2) ELSE CompileBad(hdr, ops, jc)
-IllFormedAt(hdr, ops, jc) == IllFormedWhy(hdr, ops, jc) # ""
+IllFormedWhy(hdr, ops, jc, J) ==
+  LET B == {j \in J : AddBad(hdr, ops, j) # ""} IN
+  IF B # {} THEN AddBad(hdr, ops, CHOOSE j \in B : \A j2 \in B : j <= j2) ELSE CompileBad(hdr, ops, jc, J)
+IllFormedAt(hdr, ops, jc, J) == IllFormedWhy(hdr, ops, jc, J) # ""
 
 --------------------------------------------------------------------------------
 (* C07, static part: which declared (static) types reach each consumer.  A pass-through node has no declared type of its own; *)
@@ -211,20 +212,24 @@ FirstCompiled(ops, outs) == FirstIn(1..Len(ops), LAMBDA j : ops[j].op = "compile
 FirstAddErr(ops, outs) == FirstIn(1..Len(ops), LAMBDA j : IsAdd(ops[j]) /\ outs[j] \in {"E", "S"})
 Accepted(ops, outs, jc) == {j \in 1..(jc - 1) : IsAdd(ops[j]) /\ outs[j] = "ok"}
 
+\* the Add* calls that make up what call j compiles: those before it, and before the first successful Compile (later ones must be refused)
+Construction(ops, j, jc) == {i \in 1..(j - 1) : IsAdd(ops[i]) /\ (jc = 0 \/ i < jc)}
+
 \* why one attempt's outcome vector contradicts C20 / the static part of C07 ("" = it does not)
 OutcomeWhy(hdr, ops, outs) ==
   LET n == Len(ops)  f == FirstAddErr(ops, outs)  jc == FirstCompiled(ops, outs) IN
   IF Len(outs) # n THEN "outcome-vector-length"
   ELSE IF C20On /\ \E j \in 1..n : outs[j] = "P" THEN "call-panicked"
   ELSE IF C20On /\ f # 0 /\ \E j \in (f + 1)..n : outs[j] # "S" THEN "error-not-sticky"
-  ELSE IF C20On /\ \E j \in 1..n : ops[j].op = "compile" /\ outs[j] = "ok" /\ IllFormedAt(hdr, ops, j) THEN "illformed-accepted"
+  ELSE IF C20On /\ \E j \in 1..n : ops[j].op = "compile" /\ outs[j] = "ok" /\ IllFormedAt(hdr, ops, j, Construction(ops, j, jc)) THEN "illformed-accepted"
   ELSE IF C20On /\ jc # 0 /\ \E j \in (jc + 1)..n : IsAdd(ops[j]) /\ ~Failed(outs[j]) THEN "modified-after-compile"
   ELSE IF C07On /\ jc # 0 /\ ConcreteMismatch(hdr, ops, Accepted(ops, outs, jc)) THEN "accepted-concrete-mismatch"
   ELSE ""
 \* detail for the reason above (which reference predicate fired)
 OutcomeDetail(hdr, ops, outs) ==
-  LET B == {j \in 1..Len(ops) : ops[j].op = "compile" /\ outs[j] = "ok" /\ IllFormedAt(hdr, ops, j)} IN
-  IF B # {} THEN IllFormedWhy(hdr, ops, CHOOSE j \in B : TRUE) ELSE ""
+  LET jc == FirstCompiled(ops, outs)
+      B == {j \in 1..Len(ops) : ops[j].op = "compile" /\ outs[j] = "ok" /\ IllFormedAt(hdr, ops, j, Construction(ops, j, jc))} IN
+  IF B # {} THEN (LET j == CHOOSE x \in B : TRUE IN IllFormedWhy(hdr, ops, j, Construction(ops, j, jc))) ELSE ""
 
 --------------------------------------------------------------------------------
 (* The rule over observation lines                                           *)
